@@ -115,7 +115,7 @@ def run(ch: Checker) -> None:
                     sinks.append((idx, c))
         if not sinks:
             nonsink_paths += 1
-            queued = [norm(c.args[0]) for idx, st in p.stmts() for c in find_calls(st, 'self.client', 'queue') if c.args]
+            queued = [norm(sym.value(c.args[0], idx)) for idx, st in p.stmts() for c in find_calls(st, 'self.client', 'queue') if c.args]
             ch.check('NOT_FOUND_RESPONSE_PKT' in queued, 'C13.1b', f, 'path without sink: ' + ' / '.join('%s=%s' % (a, b) for a, b in list(allfacts(p).items()))[:120],
                      'refusal path queues NOT_FOUND_RESPONSE_PKT', 'a path that does not serve a file does not answer 404 (queued: %s)' % queued,
                      witness=p.describe())
